@@ -168,3 +168,13 @@ func lemmaIGMPv3Report2(p *IGMPv3MembershipReport, t1, t2 uint8, g1, g2, s1, s2,
 	b2, _ = d.MarshalBinary()
 	return
 }
+
+// LLDP (chassis, port and TTL TLVs): encode with Read into a buffer of the reported size, decode with Write into a
+// fresh value, encode again.
+func lemmaLLDP(l *LLDP) (d *LLDP, n1, n2 int, err error, b1 []byte) {
+	b1 = make([]byte, int(l.Len()))
+	n1, _ = l.Read(b1)
+	d = new(LLDP)
+	n2, err = d.Write(b1)
+	return
+}
